@@ -173,10 +173,18 @@ func EvalImpl(k *Kind, p Params) (o Obs) {
 	case <-time.After(20 * time.Second):
 		o.Timeout = true
 		o.Impl = "hang"
-		func() {
+		// the model line, if the kind can produce it without running the implementation (itself under a watchdog:
+		// a kind that ignores the flag would block again)
+		lc := make(chan string, 1)
+		go func() {
 			defer func() { _ = recover() }()
-			o.Line, _ = k.Eval(withFlag(p, "lineonly"))
+			l, _ := k.Eval(withFlag(p, "lineonly"))
+			lc <- l
 		}()
+		select {
+		case o.Line = <-lc:
+		case <-time.After(5 * time.Second):
+		}
 	}
 	o.WallUs = time.Since(start).Microseconds()
 	return o
